@@ -61,20 +61,24 @@ package commands
 //@   property C12
 //@   safe
 //@   terminates
+//@   pure
 //@   callsite strings.HasSuffix#1 (hit bool) assume hit ==> len(data) >= len(domain)+2 "lower-casing maps ASCII bytes one to one, so a name whose lower-cased form ends in .domain. is at least that long"
-//@   loop 1 vars data []byte
+//@   loop 1 vars data []byte, res []byte
+//@   loop 1 invariant spec_fresh(res)
 //@   loop 1 decreases len(data)
 
 //@ func ComposeRequest
 //@   property C12
 //@   safe
+//@   pure
 //@   requires msg != nil && len(msg.Question) == 1                  :one_question
 
 //@ func (cl Serializer) DecodeDnsRequest
 //@   property C12
 //@   safe
 //@   requires cl.Upstream.Encoder != nil
-//@   ensures err == nil ==> result != nil
+//@   modifies G_lastenc()
+//@   ensures err == nil ==> result != nil && spec_fresh(result)
 
 //@ func (cl Serializer) DecodeDnsResponseWithParams
 //@   property C12
@@ -89,17 +93,19 @@ package commands
 //@ func (cl Serializer) EncodeDnsResponseWithParams
 //@   property C12
 //@   safe
-//@   requires resp != nil && request != nil && downstream != nil && len(request.Question) >= 1
+//@   requires resp != nil && request != nil && downstream != nil && len(request.Question) >= 1 && len(cl.Domain) <= 180
+//@   modifies G_lastenc()
 
 //@ func (cl Serializer) EncodeDnsResponse
 //@   property C12
 //@   safe
-//@   requires resp != nil && request != nil && cl.Downstream.Encoder != nil && len(request.Question) >= 1
+//@   requires resp != nil && request != nil && cl.Downstream.Encoder != nil && len(request.Question) >= 1 && len(cl.Domain) <= 180
+//@   modifies G_lastenc()
 
 // The command table's constructors are closures returning a fresh request / response object.
 //@ extern field:github.com/bokysan/socketace/v2/internal/streams/dns/commands.Command.NewRequest (c *Command) (result Request)
 //@   pure
-//@   ensures result != nil
+//@   ensures result != nil && spec_fresh(result)
 //@ extern field:github.com/bokysan/socketace/v2/internal/streams/dns/commands.Command.NewResponse (c *Command) (result Response)
 //@   pure
 //@   ensures result != nil
@@ -107,10 +113,10 @@ package commands
 // ---- interface contracts of the command objects (what the dispatchers rely on)
 //@ iface (github.com/bokysan/socketace/v2/internal/streams/dns/commands.Request).Decode (r Request, e enc.Encoder, request []byte) (err error)
 //@   requires e != nil
-//@   modifies *
+//@   modifies r.*, G_lastenc()
 //@ iface (github.com/bokysan/socketace/v2/internal/streams/dns/commands.Response).Decode (r Response, e enc.Encoder, response []byte) (err error)
 //@   requires e != nil
-//@   modifies *
+//@   modifies r.*, G_lastenc()
 //@ iface (github.com/bokysan/socketace/v2/internal/streams/dns/commands.Response).Encode (r Response, e enc.Encoder) (result []byte, err error)
 //@   requires e != nil
 //@   modifies G_lastenc()
@@ -123,6 +129,7 @@ package commands
 //@   property C12
 //@   safe
 //@   requires e != nil
+//@   ensures err == nil ==> vr.UserId < 1296                        :user_id_in_table_range
 //@ func (vr *PacketRequest) Encode
 //@   property C12
 //@   safe
@@ -155,6 +162,7 @@ package commands
 //@   property C12
 //@   safe
 //@   requires e != nil
+//@   ensures err == nil ==> vr.UserId < 1296                        :user_id_in_table_range
 //@ func (vr *SetOptionsRequest) Encode
 //@   property C12
 //@   safe
@@ -171,6 +179,7 @@ package commands
 //@   property C12
 //@   safe
 //@   requires e != nil
+//@   ensures err == nil ==> vr.DownstreamEncoder != nil              :codec_resolved
 //@ func (vr *TestDownstreamEncoderRequest) Encode
 //@   property C12
 //@   safe
@@ -187,6 +196,7 @@ package commands
 //@   property C12
 //@   safe
 //@   requires e != nil
+//@   ensures err == nil ==> vr.UserId < 1296                        :user_id_in_table_range
 //@ func (vr *TestDownstreamFragmentSizeRequest) Encode
 //@   property C12
 //@   safe
@@ -203,6 +213,7 @@ package commands
 //@   property C12
 //@   safe
 //@   requires e != nil
+//@   ensures err == nil ==> vr.UserId < 1296                        :user_id_in_table_range
 //@ func (vr *TestUpstreamEncoderRequest) Encode
 //@   property C12
 //@   safe
@@ -227,10 +238,12 @@ package commands
 //@ func (vr *SetOptionsRequest) readBool
 //@   property C12
 //@   safe
+//@   pure
 //@   requires data != nil
 //@ func (vr *SetOptionsRequest) writeBool
 //@   property C12
 //@   safe
+//@   pure
 //@   requires data != nil
 
 // ---- Command() accessors
